@@ -6,7 +6,6 @@ From Codec Require Import Wire Impl Statements ProofsHeader.
 Open Scope N_scope.
 
 
-
 (* ---------- ack ---------- *)
 
 Lemma accepts_ack : C04_accepts_ack.
@@ -398,6 +397,203 @@ Proof.
     rewrite rd16_be16 by exact HP. reflexivity.
 Qed.
 
+(* ---------- connect ---------- *)
+
+Lemma version_ok_proto v : version_ok v = true -> len (proto_name v) <= maxLPString.
+Proof.
+  unfold version_ok, supported_versions. cbn [existsb fst]. intros H.
+  assert (C : v = 3 \/ v = 4) by lia.
+  destruct C as [ -> | -> ]; vm_compute; discriminate.
+Qed.
+
+Lemma conn_body_accept m0 v f ka cid wt wm user pass :
+  connect_ok {| cp_version := v; cp_flags := f; cp_keepalive := ka; cp_clientid := cid;
+                cp_willtopic := wt; cp_willmsg := wm; cp_username := user; cp_password := pass |} = true ->
+  c_wt m0 = [] -> c_wm m0 = [] -> c_user m0 = [] -> c_pass m0 = [] ->
+  let body := connect_body {| cp_version := v; cp_flags := f; cp_keepalive := ka; cp_clientid := cid;
+                cp_willtopic := wt; cp_willmsg := wm; cp_username := user; cp_password := pass |} in
+  conn_decode_body m0 body =
+    Ok (mkConn (c_h m0) f v ka (proto_name v) cid wt wm user pass, length body).
+Proof.
+  intros OK Z1 Z2 Z3 Z4 body. subst body.
+  unfold connect_ok, connect_body in *.
+  cbn [cp_version cp_flags cp_keepalive cp_clientid cp_willtopic cp_willmsg cp_username cp_password] in *.
+  unfold flag in *.
+  apply andb_true_iff in OK as [OK C18]. apply andb_true_iff in OK as [OK C17].
+  apply andb_true_iff in OK as [OK C16]. apply andb_true_iff in OK as [OK C15].
+  apply andb_true_iff in OK as [OK C14]. apply andb_true_iff in OK as [OK C13].
+  apply andb_true_iff in OK as [OK C12]. apply andb_true_iff in OK as [OK C11].
+  apply andb_true_iff in OK as [OK C10]. apply andb_true_iff in OK as [OK C9].
+  apply andb_true_iff in OK as [OK C8]. apply andb_true_iff in OK as [OK C7].
+  apply andb_true_iff in OK as [OK C6]. apply andb_true_iff in OK as [OK C5].
+  apply andb_true_iff in OK as [OK C4]. apply andb_true_iff in OK as [OK C3].
+  apply andb_true_iff in OK as [HV C2].
+  assert (HV' : version_ok v = true) by exact HV.
+  pose proof (version_ok_proto v HV') as LPN.
+  pose proof (str_ok_le _ C7) as L1. pose proof (str_ok_le _ C10) as L2.
+  pose proof (str_ok_le _ C11) as L3. pose proof (str_ok_le _ C12) as L4.
+  pose proof (str_ok_le _ C13) as L5.
+  apply N.ltb_lt in C2, C6.
+  set (pn := proto_name v) in *.
+  match goal with |- context [lp cid ++ ?w ++ ?u ++ ?p] =>
+    remember w as W eqn:EW; remember u as U eqn:EU; remember p as P eqn:EP
+  end.
+  remember (lp pn ++ [v; f] ++ be16 ka ++ lp cid ++ W ++ U ++ P) as src eqn:Esrc.
+  set (B := [v; f; ka / 256 mod 256; ka mod 256]).
+  assert (Esrc2 : src = lp pn ++ B ++ lp cid ++ W ++ U ++ P).
+  { rewrite Esrc. reflexivity. }
+  assert (LS : length src = (2 + length pn + 4 + (2 + length cid) + length W + length U + length P)%nat).
+  { rewrite Esrc2, !app_length, !lp_length. cbn [length B]. lia. }
+  set (t0 := (2 + length pn)%nat) in *.
+  unfold conn_decode_body.
+  assert (RL0 : read_lp src = Ok (pn, t0)).
+  { rewrite Esrc. apply read_lp_lp. exact LPN. }
+  rewrite RL0. cbn [bind].
+  rewrite from_ok by lia. cbn [bind]. rewrite skipn_length.
+  destruct (length src - t0 <? 2)%nat eqn:E1; [lia|].
+  assert (IX : forall k, (k < 4)%nat -> idx src (t0 + k) = idx B k).
+  { intros k Hk. rewrite Esrc2.
+    rewrite (idx_app_off (lp pn) _ _ k) by (rewrite lp_length; reflexivity).
+    unfold idx. rewrite nth_error_app1 by (cbn [length B]; lia). reflexivity. }
+  assert (IX0 : idx src t0 = Ok v).
+  { replace t0 with (t0 + 0)%nat by lia. rewrite IX by lia. reflexivity. }
+  assert (IX1 : idx src (S t0) = Ok f).
+  { replace (S t0) with (t0 + 1)%nat by lia. rewrite IX by lia. reflexivity. }
+  assert (IX2 : idx src (S (S t0)) = Ok (ka / 256 mod 256)).
+  { replace (S (S t0)) with (t0 + 2)%nat by lia. rewrite IX by lia. reflexivity. }
+  assert (IX3 : idx src (S (S (S t0))) = Ok (ka mod 256)).
+  { replace (S (S (S t0))) with (t0 + 3)%nat by lia. rewrite IX by lia. reflexivity. }
+  rewrite IX0. cbn [bind].
+  fold (version_ok v). rewrite HV'. cbn [negb]. fold pn. rewrite beq_bytes_refl. cbn [negb].
+  rewrite IX1. cbn [bind].
+  rewrite land1_testbit0 by exact C2. rewrite C3. cbn [negb].
+  destruct (2 <? f / 8 mod 4) eqn:E2; [lia|].
+  assert (E3 : negb (N.testbit f 2) && (N.testbit f 5 || negb (f / 8 mod 4 =? 0)) = false).
+  { destruct (N.testbit f 2); [reflexivity|]. cbn [negb orb andb] in C5 |- *.
+    apply andb_true_iff in C5 as [Ca Cb]. rewrite Cb. apply negb_true_iff in Ca. rewrite Ca.
+    reflexivity. }
+  rewrite E3.
+  rewrite from_ok by lia. cbn [bind]. rewrite skipn_length.
+  destruct (length src - S (S t0) <? 2)%nat eqn:E4; [lia|].
+  rewrite IX2, IX3. cbn [bind].
+  rewrite rd16_be16 by exact C6.
+  rewrite from_ok by lia. cbn [bind].
+  assert (SK1 : skipn (S (S t0) + 2) src = lp cid ++ W ++ U ++ P).
+  { rewrite Esrc2. rewrite app_assoc. apply skipn_app_exact.
+    rewrite app_length, lp_length. cbn [length B]. lia. }
+  rewrite SK1. rewrite read_lp_lp by exact L1. cbn [at_off bind].
+  rewrite length_eqb_len.
+  assert (E5 : (len cid =? 0) && negb (N.testbit f 1) = false).
+  { destruct (len cid =? 0); [|reflexivity]. destruct (N.testbit f 1); [reflexivity|].
+    cbn [negb orb] in C9. discriminate C9. }
+  rewrite E5.
+  rewrite C8. cbn [negb]. rewrite andb_false_r.
+  set (t1 := (S (S t0) + 2 + (2 + length cid))%nat).
+  match goal with |- bind ?Wx ?K = ?R =>
+    assert (HK : forall total, total = (t1 + length W)%nat -> K (wt, wm, total) = R)
+  end.
+  { intros total ET. cbv beta iota.
+    rewrite from_ok by lia. cbn [bind].
+    assert (SKU : skipn total src = U ++ P).
+    { rewrite Esrc2. rewrite !app_assoc. rewrite <- (app_assoc _ U P). apply skipn_app_exact.
+      rewrite !app_length, !lp_length. cbn [length B]. lia. }
+    rewrite SKU.
+    match goal with |- bind ?Ux ?K2 = ?R =>
+      assert (HK2 : forall total2, total2 = (total + length U)%nat -> K2 (user, total2) = R)
+    end.
+    { intros total2 ET2. cbv beta iota.
+      rewrite from_ok by lia. cbn [bind].
+      assert (SKP : skipn total2 src = P).
+      { rewrite Esrc2. rewrite !app_assoc. apply skipn_app_exact.
+        rewrite !app_length, !lp_length. cbn [length B]. lia. }
+      rewrite SKP. rewrite length_eqb_len.
+      destruct (N.testbit f 6) eqn:F6.
+      - cbn [negb orb andb] in *. rewrite C18 in EP. subst P.
+        rewrite len_lp. destruct (2 + len pass =? 0) eqn:E6; [lia|]. cbn [negb].
+        assert (RLP : read_lp (lp pass) = Ok (pass, (2 + length pass)%nat)).
+        { rewrite <- (app_nil_r (lp pass)). apply read_lp_lp. exact L5. }
+        rewrite RLP. cbn [at_off bind].
+        f_equal. f_equal. rewrite LS, lp_length. lia.
+      - cbn [negb orb andb] in *. subst P. cbn [bind].
+        rewrite Z4. rewrite (len_0_nil _ C16). f_equal. f_equal. rewrite LS. cbn [length]. lia. }
+    rewrite length_eqb_len.
+    destruct (N.testbit f 7) eqn:F7.
+    - cbn [negb orb andb] in *. rewrite C17 in EU. subst U.
+      rewrite len_app, len_lp. destruct (2 + len user + len P =? 0) eqn:E6; [lia|]. cbn [negb].
+      rewrite read_lp_lp by exact L4. cbn [at_off bind].
+      apply HK2. rewrite lp_length. lia.
+    - cbn [negb orb andb] in *. subst U. cbn [bind].
+      rewrite Z3. pose proof (len_0_nil _ C15) as EUser. subst user.
+      apply HK2. cbn [length]. lia. }
+  destruct (N.testbit f 2) eqn:F2.
+  - subst W. rewrite from_ok by lia. cbn [bind].
+    assert (SKW : skipn t1 src = lp wt ++ lp wm ++ U ++ P).
+    { unfold t1. rewrite <- skipn_skipn'. rewrite SK1.
+      rewrite skipn_app_exact by (rewrite lp_length; reflexivity).
+      rewrite <- app_assoc. reflexivity. }
+    rewrite SKW. rewrite read_lp_lp by exact L2. cbn [at_off bind].
+    rewrite from_ok by (rewrite !app_length, !lp_length in LS; lia). cbn [bind].
+    assert (SKW2 : skipn (t1 + (2 + length wt)) src = lp wm ++ U ++ P).
+    { rewrite <- skipn_skipn'. rewrite SKW. apply skipn_app_exact. rewrite lp_length. reflexivity. }
+    rewrite SKW2. rewrite read_lp_lp by exact L3. cbn [at_off bind].
+    apply HK. rewrite app_length, !lp_length. lia.
+  - subst W. cbn [bind]. cbn [negb orb andb] in *.
+    apply andb_true_iff in C14 as [C14a C14b].
+    rewrite Z1, Z2. pose proof (len_0_nil _ C14a) as Ewt. pose proof (len_0_nil _ C14b) as Ewm.
+    subst wt wm. apply HK. cbn [length]. lia.
+Qed.
+
+Lemma connect_body_len c : connect_ok c = true -> len (connect_body c) <= maxRemainingLength.
+Proof.
+  intros OK. unfold connect_ok, connect_body in *.
+  do 17 (apply andb_true_iff in OK as [OK ?H]).
+  assert (HV : version_ok (cp_version c) = true) by exact OK.
+  pose proof (version_ok_proto _ HV) as HPN.
+  pose proof (str_ok_le _ H10) as L1. pose proof (str_ok_le _ H7) as L2.
+  pose proof (str_ok_le _ H6) as L3. pose proof (str_ok_le _ H5) as L4.
+  pose proof (str_ok_le _ H4) as L5.
+  rewrite !len_app, !len_lp, len_be16, !len_cons, len_nil.
+  unfold maxLPString in *. unfold maxRemainingLength.
+  destruct (flag (cp_flags c) 2);
+    destruct (flag (cp_flags c) 7 && negb (len (cp_username c) =? 0));
+    destruct (flag (cp_flags c) 6 && negb (len (cp_password c) =? 0));
+    rewrite ?len_app, ?len_lp, ?len_nil; lia.
+Qed.
+
+Lemma accepts_conn : C04_accepts_conn.
+Proof.
+  intros c rest p OK. subst p. cbn [packet_ok] in OK.
+  pose proof (connect_body_len c OK) as HBL.
+  destruct c as [v f ka cid wt wm user pass].
+  cbn [wire]. change (default_flags T_CONNECT) with 0.
+  pose proof (conn_body_accept
+    (cwh conn_new (mkHdr (len (connect_body {| cp_version := v; cp_flags := f; cp_keepalive := ka;
+         cp_clientid := cid; cp_willtopic := wt; cp_willmsg := wm; cp_username := user;
+         cp_password := pass |})) (T_CONNECT * 16 + 0) (pid (new_hdr T_CONNECT))
+       (fixed T_CONNECT 0 (connect_body {| cp_version := v; cp_flags := f; cp_keepalive := ka;
+         cp_clientid := cid; cp_willtopic := wt; cp_willmsg := wm; cp_username := user;
+         cp_password := pass |})) (dirty (new_hdr T_CONNECT)) true (pal (new_hdr T_CONNECT))))
+    v f ka cid wt wm user pass OK eq_refl eq_refl eq_refl eq_refl) as CB.
+  cbv zeta in CB.
+  remember (connect_body {| cp_version := v; cp_flags := f; cp_keepalive := ka; cp_clientid := cid;
+              cp_willtopic := wt; cp_willmsg := wm; cp_username := user; cp_password := pass |})
+    as body eqn:Ebody.
+  unfold conn_decode. cbn [conn_new c_h].
+  rewrite (hdr_decode_fixed (new_hdr T_CONNECT) T_CONNECT 0 body rest).
+  2: { reflexivity. }
+  2: { lia. }
+  2: { apply new_hdr_type. }
+  2: { reflexivity. }
+  2: { exact HBL. }
+  cbn [bind dbuf].
+  pose proof (fixed_length T_CONNECT 0 body) as FXL.
+  rewrite from_ok by lia. cbn [bind]. rewrite skipn_fixed.
+  fold conn_new. rewrite CB. cbn [at_off bind].
+  eexists. split.
+  - apply ok_pair_eq. rewrite FXL. reflexivity.
+  - reflexivity.
+Qed.
+
 Print Assumptions accepts_pub.
 Print Assumptions accepts_ack.
 Print Assumptions accepts_empty.
@@ -405,3 +601,4 @@ Print Assumptions accepts_connack.
 Print Assumptions accepts_suback.
 Print Assumptions accepts_sub.
 Print Assumptions accepts_unsub.
+Print Assumptions accepts_conn.
